@@ -378,6 +378,9 @@ class FileDescriptor(_ConsumerMixin, _LogOwner):
         streaming producer is registered, it will be paused until the buffered
         data is written to the underlying file descriptor.
         """
+        # iovec may be a one-shot iterable (a generator, an iterator, a map
+        # object): it is looked at several times below, so materialise it once.
+        iovec = list(iovec)
         for i in iovec:
             _dataMustBeBytes(i)
         if not self.connected or not iovec or self._writeDisconnected:
